@@ -321,6 +321,14 @@ def run(P, R, tier):
     # the +! hold is taken from the net mode set: a set must win over an earlier clear of the same letter
     from . import c05, c06
     c05.mode_update(P, R, 'C02.MPT.4')
+    # acceptance with queries outstanding needs THE client's timer to have run out: the timer is created once, for the
+    # announced client, with the configured interval, and nothing else arms or re-arms it
+    from . import c10
+    cl10 = c10.cleanup_fn(P, Remap(R, {'C10.MPT.1': 'C02.TMR.1', 'C10.WIRE.1': 'C02.TMR.1'}))
+    c10.timer_lifecycle(P, Remap(R, {'C10.WMC.2': 'C02.TMR.1'}), cl10)
+    # an answer counts for the instance it was asked about: instances of one id are told apart by a counter that never
+    # repeats (anything derived from the client's own data repeats when the client does)
+    c04.serial_writers(P, Remap(R, {'C04.WMC.2': 'C02.WMC.5'}), c04.reader_is_canonical(P))
     # the stamp that released the +! hold is still there at acceptance: no later reply replaces it by an empty one
     c05.account_nonempty(P, R, c05.account_writers(P, Remap(R, {})), 'C02.GRD.8')
     # a second PASS (after AGAIN) is parsed as credentials again, so a +! added by the retry is honoured
